@@ -600,7 +600,7 @@ func checkC15Accum(c *Ctx) {
 			if pkgOf(fn) != pkgCapacity {
 				continue
 			}
-			for _, chk := range callsIn(fn, "(*"+pkgCapacity+".SpaceKeeper).checkOSDiskSize", pkgCapacity+".checkOSDiskSizeByPath") {
+			for _, chk := range callsInShallow(fn, "(*"+pkgCapacity+".SpaceKeeper).checkOSDiskSize", pkgCapacity+".checkOSDiskSizeByPath") {
 				arg := chk.Call.Args[len(chk.Call.Args)-1]
 				ph, ok := strip(arg).(*ssa.Phi)
 				if !ok {
@@ -715,7 +715,7 @@ func checkIndexFromRequestedDirs(c *Ctx, rule string) {
 	sort.Slice(fns, func(i, j int) bool { return FuncName(fns[i]) < FuncName(fns[j]) })
 	for _, f := range fns {
 		var stores []ssa.Instruction
-		for _, a := range fieldAccesses(f) {
+		for _, a := range fieldAccessesShallow(f) {
 			if a.Kind == "store" && a.Type == pkgCapacity+".SpaceKeeper" && a.Field == "dbDirs" && !isFreshObject(a.Base) {
 				stores = append(stores, a.In)
 			}
@@ -723,7 +723,7 @@ func checkIndexFromRequestedDirs(c *Ctx, rule string) {
 		// sk.generateInitialIndex is a function-typed field (set per database type): the rebuild is a call
 		// through that field
 		var gens []*ssa.Call
-		allInstrs(f, func(in ssa.Instruction) {
+		allInstrsShallow(f, func(in ssa.Instruction) {
 			if cl, ok := in.(*ssa.Call); ok && isFieldFuncCall(cl, pkgCapacity+".SpaceKeeper", "generateInitialIndex") {
 				gens = append(gens, cl)
 			}
@@ -764,7 +764,7 @@ func checkC15Guard(c *Ctx) {
 	sort.Slice(fns, func(i, j int) bool { return fns[i].Name() < fns[j].Name() })
 	for _, f := range fns {
 		var cas *ssa.Call
-		allInstrs(f, func(in ssa.Instruction) {
+		allInstrsShallow(f, func(in ssa.Instruction) {
 			if cl, ok := in.(*ssa.Call); ok && strings.HasPrefix(calleeID(cl), "sync/atomic.CompareAndSwap") {
 				if _, fld, _, isF := fieldOfAddr(cl.Call.Args[0]); isF && fld == "configuring" {
 					cas = cl
@@ -894,7 +894,7 @@ func checkNoAppendOntoLivePrefix(c *Ctx, rule string) {
 			continue
 		}
 		fn := fn
-		allInstrs(fn, func(in ssa.Instruction) {
+		allInstrsShallow(fn, func(in ssa.Instruction) {
 			cl, ok := in.(*ssa.Call)
 			if !ok {
 				return
@@ -914,7 +914,7 @@ func checkNoAppendOntoLivePrefix(c *Ctx, rule string) {
 			}
 			// a later read of the same slice from the same index on
 			r := reach(fn, cl, nil, nil)
-			allInstrs(fn, func(i2 ssa.Instruction) {
+			allInstrsShallow(fn, func(i2 ssa.Instruction) {
 				suf, isS2 := i2.(*ssa.Slice)
 				if !isS2 || suf.Low == nil || accessPath(suf.X) != base {
 					return
